@@ -595,6 +595,9 @@ impl crate::verif::vx::bfs::Model for SeqModel {
         sys.broken = now;
         true
     }
+    fn observe(&self, sys: &SeqSys) -> u64 {
+        (sys.pre.len() as u64) * 100 + (sys.post.len() as u64) * 10 + sys.sub.is_some() as u64
+    }
     fn fingerprint(&self, sys: &SeqSys) -> Vec<u8> {
         let (pre, post) = rib(&sys.tables);
         let filtered: Vec<String> = sys.tables.collect_paths(table::TableQuery::Global, Family::IPV4, vec![], true).iter().map(|d| format!("{}:{:?}", d.net, d.paths.iter().map(|p| (p.source.remote_addr, p.filtered)).collect::<Vec<_>>())).collect();
